@@ -439,7 +439,7 @@ func (v VarLong) Len() int {
 
 func (p Position) WriteTo(w io.Writer) (n int64, err error) {
 	var b [8]byte
-	position := uint64(p.X&0x3FFFFFF)<<38 | uint64((p.Z&0x3FFFFFF)<<12) | uint64(p.Y&0xFFF)
+	position := uint64(p.X&0x3FFFFFF)<<38 | uint64(p.Z&0x3FFFFFF)<<12 | uint64(p.Y&0xFFF) // shift after widening: int has 32 bits on some platforms
 	for i := 7; i >= 0; i-- {
 		b[i] = byte(position)
 		position >>= 8
